@@ -54,6 +54,11 @@ func setupPrefix(args ...string) (handler.Handler6, error) {
 	if err != nil {
 		return nil, fmt.Errorf("Invalid pool subnet: %v", err)
 	}
+	// prefix delegation is DHCPv6 only; net.ParseCIDR also accepts IPv4 (and
+	// v4-mapped) networks, which the allocator cannot index
+	if prefix.IP.To4() != nil || len(prefix.IP) != net.IPv6len {
+		return nil, fmt.Errorf("Invalid pool subnet: %s is not an IPv6 prefix", args[0])
+	}
 
 	allocSize, err := strconv.Atoi(args[1])
 	if err != nil || allocSize > 128 || allocSize < 0 {
